@@ -158,44 +158,33 @@ open Adeu
 
 /-! ### accounting -/
 
-theorem applyEditsIndexed_total (s : Sess) (edits : List IEdit) :
-    (applyEditsIndexed s edits).2.1 + (applyEditsIndexed s edits).2.2 = edits.length := by
-  unfold applyEditsIndexed
-  simp only
-  have hlen : (edits.reverse.mergeSort fun a b => decide (a.index ≥ b.index)).length = edits.length := by simp
-  rw [← hlen]
-  generalize (edits.reverse.mergeSort fun a b => decide (a.index ≥ b.index)) = sorted
-  -- fold invariant: applied + skipped = number of edits processed
-  suffices h : ∀ (l : List IEdit) (acc : Sess × Nat × Nat × List (Nat × Nat)),
-      (l.foldl (fun (acc : Sess × Nat × Nat × List (Nat × Nat)) (e : IEdit) =>
-        if acc.2.2.2.any (fun (x : Nat × Nat) => decide (e.index < x.2) && decide (e.index + e.target.length > x.1)) then
-          (acc.1, acc.2.1, acc.2.2.1 + 1, acc.2.2.2)
-        else
-          if (applyIndexed acc.1 false e.index e.target.length e.new e.comment none).2 then
-            ((applyIndexed acc.1 false e.index e.target.length e.new e.comment none).1, acc.2.1 + 1, acc.2.2.1,
-              acc.2.2.2 ++ [(e.index, e.index + e.target.length)])
-          else ((applyIndexed acc.1 false e.index e.target.length e.new e.comment none).1, acc.2.1, acc.2.2.1 + 1, acc.2.2.2)) acc).2.1 +
-      (l.foldl (fun (acc : Sess × Nat × Nat × List (Nat × Nat)) (e : IEdit) =>
-        if acc.2.2.2.any (fun (x : Nat × Nat) => decide (e.index < x.2) && decide (e.index + e.target.length > x.1)) then
-          (acc.1, acc.2.1, acc.2.2.1 + 1, acc.2.2.2)
-        else
-          if (applyIndexed acc.1 false e.index e.target.length e.new e.comment none).2 then
-            ((applyIndexed acc.1 false e.index e.target.length e.new e.comment none).1, acc.2.1 + 1, acc.2.2.1,
-              acc.2.2.2 ++ [(e.index, e.index + e.target.length)])
-          else ((applyIndexed acc.1 false e.index e.target.length e.new e.comment none).1, acc.2.1, acc.2.2.1 + 1, acc.2.2.2)) acc).2.2.1
-        = acc.2.1 + acc.2.2.1 + l.length by
-    have := h sorted (s, 0, 0, [])
-    simpa using this
-  intro l
+theorem indexedStep_count (acc : Sess × Nat × Nat × List (Nat × Nat)) (e : IEdit) :
+    (indexedStep acc e).2.1 + (indexedStep acc e).2.2.1 = acc.2.1 + acc.2.2.1 + 1 := by
+  obtain ⟨s, ap, sk, occ⟩ := acc
+  simp only [indexedStep]
+  split
+  · simp only; omega
+  · split <;> (simp only; omega)
+
+theorem foldl_indexedStep_count (l : List IEdit) : ∀ (acc : Sess × Nat × Nat × List (Nat × Nat)),
+    (l.foldl indexedStep acc).2.1 + (l.foldl indexedStep acc).2.2.1 = acc.2.1 + acc.2.2.1 + l.length := by
   induction l with
   | nil => intro acc; simp
   | cons e rest ih =>
     intro acc
     simp only [List.foldl_cons, List.length_cons]
-    rw [ih]
-    split
-    · simp only; omega
-    · split <;> (simp only; omega)
+    rw [ih, indexedStep_count]
+    omega
+
+theorem applyEditsIndexedFull_total (s : Sess) (edits : List IEdit) :
+    (applyEditsIndexedFull s edits).2.1 + (applyEditsIndexedFull s edits).2.2.1 = edits.length := by
+  unfold applyEditsIndexedFull
+  rw [foldl_indexedStep_count]
+  simp
+
+theorem applyEditsIndexed_total (s : Sess) (edits : List IEdit) :
+    (applyEditsIndexed s edits).2.1 + (applyEditsIndexed s edits).2.2 = edits.length :=
+  applyEditsIndexedFull_total s edits
 
 end Adeu.Doc
 
